@@ -531,11 +531,13 @@ def step (st : St) (line : String) : St × String :=
         let gsum' := io.gSum.getD st.gSum
         -- replies: a reply on a session with a random send counter is compared with the counter blanked
         let hideCtrOf (r : Reply) : Bool :=
-          match r.key with
+          match r.via with
           | none => false
-          | some k =>
-            -- the sending session is hidden iff no installed session has that send key
-            !(st.installed.any fun o => match (st.decl.find? (·.1 = o)).map (·.2) with | some s => s.isEncrypted && s.encKey == k | none => false)
+          | some i =>
+            -- written on a session the implementation created itself (random send counter)?
+            match st.hashes[i]? with
+            | some (o, _) => !st.installed.contains o
+            | none => true
         let mrs := mreplies.map fun r => replyStr st1 r (hideCtrOf r)
         let irs := (io.replies.zip (mreplies.map hideCtrOf ++ List.replicate io.replies.length false)).map fun (r, hd) => if hd then blankCtr r else r
         let st' := { st1 with w := w', hashes := io.hashes, sums := sums', gHash := io.gHash, gSum := gsum',
